@@ -372,6 +372,8 @@ class Observer:
         self.alphabet = [c for c in shape_alphabet if c in cmap]
         self._gvar_lip = {}
         self._cff2_lip = None
+        mtags = [r.ValueTag for r in self.mvar.ValueRecord] if self.mvar is not None else []
+        self.mvar_sorted = mtags == sorted(mtags)
         self.slope = avar_max_slope(f)
         self.avar2 = "avar" in f and getattr(f["avar"], "majorVersion", 1) >= 2
         self.fv_bounds = fv_boundaries(f)
@@ -484,15 +486,10 @@ class Observer:
             g = gs[gn]
             g.draw(pen)
             pen._flush(False)
-            rec["ft"] = geom.canon_contours(pen.contours)
+            rec["ftraw"] = contour_points(pen.contours)
             rec["ftw"] = g.width
-            if self.is_cff2:
-                rec["ftraw"] = pen.contours
             if want_hb_outlines:
-                raw = self.hb.raw_outline(gid)
-                rec["hb"] = geom.canon_contours(raw)
-                if self.is_cff2:
-                    rec["hbraw"] = raw
+                rec["hbraw"] = contour_points(self.hb.raw_outline(gid))
             rec["hbw"] = self.hb.h_advance(gid)
             if "vmtx" in f:
                 rec["hbv"] = self.hb.v_advance(gid)
@@ -633,32 +630,82 @@ def outline_close(ca, cb, tolx, toly):
 
 
 # --------------------------------------------------------------------------- CFF2
-def point_stream(raw):
-    """raw pen contours [(closed, start, segs)] -> flat list of the points the charstring
-    writes, in drawing order (explicit closing lines back to the start are not operands)"""
-    pts = []
-    for _closed, start, segs in raw:
-        c = [tuple(start)] + [tuple(p) for g in segs for p in g[2:]]
-        while len(c) > 1 and c[-1] == c[0]:
-            c.pop()
-        pts.extend(c)
-    return pts
+def contour_points(raw):
+    """raw pen contours [(closed, start, segs)] -> [[(x, y), ...]] the points written per
+    contour in drawing order (a synthesised closing line ends exactly on the start and is
+    recognised as a closer by point_streams)"""
+    return [[(float(start[0]), float(start[1]))] + [(float(p[0]), float(p[1])) for g in segs for p in g[2:]] for _c, start, segs in raw]
 
 
-def cff_stream_diff(ra, rb):
-    """(max error of a relative move, max over points of absolute error / number of moves so
-    far) or None when the streams have different lengths"""
-    pa, pb = point_stream(ra), point_stream(rb)
-    if len(pa) != len(pb):
+def _strip_closers(c, eps=1e-3):
+    n = len(c)
+    while n > 1 and abs(c[n - 1][0] - c[0][0]) < eps and abs(c[n - 1][1] - c[0][1]) < eps:
+        n -= 1
+    return n
+
+
+def point_streams(ca, cb, eps):
+    """Two recordings of the same charstring structure -> two aligned lists [(x, y, span,
+    index)] or None.  Per contour, trailing points that return to the contour's start are not
+    compared (explicit closing operand, HarfBuzz's synthesised closing line, float noise of a
+    blend sum); when rounding made the moves of one font's contour no longer sum to zero, its
+    last point misses the start by up to the accumulated budget `eps` and is matched with the
+    other font's exact return.  span = raw moves since the previous kept point, index = raw
+    moves written so far."""
+    if len(ca) != len(cb):
+        return None
+    outa, outb = [], []
+    ia = ib = sa = sb = 0
+    for x, y in zip(ca, cb):
+        nx, ny = _strip_closers(x), _strip_closers(y)
+        if nx == ny + 1 and abs(x[nx - 1][0] - x[0][0]) < eps and abs(x[nx - 1][1] - x[0][1]) < eps:
+            nx -= 1
+        elif ny == nx + 1 and abs(y[ny - 1][0] - y[0][0]) < eps and abs(y[ny - 1][1] - y[0][1]) < eps:
+            ny -= 1
+        if nx != ny:
+            return None
+        for i in range(max(len(x), len(y))):
+            if i < len(x):
+                ia += 1
+                sa += 1
+            if i < len(y):
+                ib += 1
+                sb += 1
+            if i < nx:
+                outa.append((x[i][0], x[i][1], sa, ia))
+                outb.append((y[i][0], y[i][1], sb, ib))
+                sa = sb = 0
+    return outa, outb
+
+
+def cff_stream_diff(ca, cb, eps=1e-3):
+    """(max error of a relative move / moves it spans, max absolute error / moves written so
+    far), or None when the two streams do not have the same structure"""
+    r = point_streams(ca, cb, eps)
+    if r is None:
         return None
     rel = acc = 0.0
     prev_a = prev_b = (0.0, 0.0)
-    for i, (p, q) in enumerate(zip(pa, pb)):
+    for p, q in zip(*r):
+        span, idx = max(p[2], q[2]), max(p[3], q[3])
         for k in (0, 1):
-            rel = max(rel, abs((p[k] - prev_a[k]) - (q[k] - prev_b[k])))
-            acc = max(acc, abs(p[k] - q[k]) / (i + 1))
+            rel = max(rel, abs((p[k] - prev_a[k]) - (q[k] - prev_b[k])) / span)
+            acc = max(acc, abs(p[k] - q[k]) / idx)
         prev_a, prev_b = p, q
     return rel, acc
+
+
+def stream_abs_diff(ca, cb, eps):
+    """(max |dx|, max |dy|) between the aligned point streams of two recordings of the same
+    glyph structure, or None when the structures differ"""
+    r = point_streams(ca, cb, eps)
+    if r is None:
+        return None
+    dx = dy = 0.0
+    for p, q in zip(*r):
+        dx = max(dx, abs(p[0] - q[0]))
+        dy = max(dy, abs(p[1] - q[1]))
+    return dx, dy
 
 
 def cff2_operand_lip(font, info):
@@ -718,3 +765,33 @@ def fv_boundaries(font):
                 if c.Format == 1:
                     out.setdefault(axes[c.AxisIndex].axisTag, set()).update((c.FilterRangeMinValue, c.FilterRangeMaxValue))
     return {k: sorted(v) for k, v in out.items()}
+
+
+def fv_pinned_shape(font, status, n_d):
+    """Input-shape class used to key substitution mismatches: True when some GSUB/GPOS
+    FeatureVariations record has conditions only on PINNED axes, all holding at the pin, while
+    another record keeps a condition on an axis that remains.  status: {axisTag: 'free' |
+    'pinned' | 'restricted'}, n_d: normalised (original space) new default location."""
+    if "fvar" not in font:
+        return False
+    axes = font["fvar"].axes
+    for tag in ("GSUB", "GPOS"):
+        if tag not in font:
+            continue
+        fv = getattr(font[tag].table, "FeatureVariations", None)
+        if not fv:
+            continue
+        pinned_only = remaining = False
+        for rec in fv.FeatureVariationRecord:
+            conds = [c for c in (rec.ConditionSet.ConditionTable if rec.ConditionSet is not None else []) if c.Format == 1]
+            if not conds:
+                continue
+            tags = [axes[c.AxisIndex].axisTag for c in conds]
+            holds = all(c.FilterRangeMinValue <= n_d.get(t, 0.0) <= c.FilterRangeMaxValue for c, t in zip(conds, tags) if status.get(t) == "pinned")
+            if all(status.get(t) == "pinned" for t in tags):
+                pinned_only |= holds
+            elif holds:
+                remaining = True
+        if pinned_only and remaining:
+            return True
+    return False
